@@ -5,7 +5,10 @@ Tables for C08, regenerated from the imported ural on every run:
 * build/c08_tables_<digest>.json — PUBLIC_SUFFIXES + PRIVATE_SUFFIXES (in `refresh()` order)
   and TLDS of ural.tld_data; the native driver reads it (memoised by path) and builds the
   Lean trie from it with the model's `add`.  Content-addressed so concurrent runs against
-  different ural trees cannot mix tables.
+  different ural trees cannot mix tables.  The list is only one of three ties: the trie that
+  ural/tld.py built from it at import time (private state of SUFFIX_TRIE, read through name
+  mangling) is compared node by node with the model's trie on every run, and TLD_SET with the
+  model's list (cases `trie` / `tlds` of harness/props/C08.py, driver ops `trie_dump`, `tlds_dump`).
 * Gen/SpecialHostsRe.lean — `SPECIAL_HOSTS_RE.pattern`, its flags, and the verdicts of the
   *real* compiled regex on a fixed probe list; `Props/C08.lean` re-checks the hand-written
   `isSpecialHost` against those verdicts (table obligation `special_hosts_probes`).
